@@ -611,40 +611,35 @@ theorem mainExport_eq (k : Key) (f : Fn) :
   unfold mainExport Spec.funcExport Spec.exportTail
   cases k.worldKey <;> simp [LLAbi.exportPrefix, LLAbi.exportVariant]
 
-/-- the side condition under which C++'s `cabi_post_` export is right -/
-def okFn (k : Key) (f : Fn) : Prop :=
-  k = .root → needsPostReturn f.sig = true → makeExternalComponent f.name = f.name
-
-theorem postReturnExport_eq (k : Key) (f : Fn) (h : k = .root → makeExternalComponent f.name = f.name) :
+theorem postReturnExport_eq (k : Key) (f : Fn) :
     Spec.funcExport .sync k f .postReturn = some (postReturnExport k f) := by
   unfold postReturnExport Spec.funcExport Spec.exportTail
   cases k with
-  | root => simp [Key.worldKey, LLAbi.exportPrefix, LLAbi.exportVariant, h rfl]
+  | root => simp [Key.worldKey, LLAbi.exportPrefix, LLAbi.exportVariant]
   | name s => simp [Key.worldKey, LLAbi.exportPrefix, LLAbi.exportVariant]
   | id i => simp [Key.worldKey, LLAbi.exportPrefix, LLAbi.exportVariant]
 
-theorem exportFn_sound (k : Key) (f : Fn) (hok : okFn k f) : ∀ x ∈ exportFn k f, x ∈ Spec.exportsOfFn k f := by
+theorem exportFn_sound (k : Key) (f : Fn) : ∀ x ∈ exportFn k f, x ∈ Spec.exportsOfFn k f := by
   intro x hx
   simp only [exportFn, List.mem_cons] at hx
   rcases hx with rfl | hx
   · exact mem_exportsOfFn_sync_normal (mainExport_eq k f)
   · split at hx
-    · rename_i hp
-      simp only [List.mem_cons, List.not_mem_nil, or_false] at hx
+    · simp only [List.mem_cons, List.not_mem_nil, or_false] at hx
       subst hx
-      exact mem_exportsOfFn_sync_post (postReturnExport_eq k f (fun hk => hok hk hp))
+      exact mem_exportsOfFn_sync_post (postReturnExport_eq k f)
     · simp at hx
 
 theorem norm_ptr : norm [CoreTy.ptr] = [CoreTy.i32] := rfl
 
-theorem sound : emit.SoundOn okFn (fun _ _ => True) where
+theorem sound : emit.SoundOn (fun _ _ => True) (fun _ _ => True) where
   importFn := by
     intro k f _ d hd
     simp only [emit, importFn, List.mem_cons, List.not_mem_nil, or_false] at hd
     subst hd
     simpa [must, funcImport_eq] using mem_importsOfFn_sync
   exportFnImports := by intro k f _ d hd; simp [emit] at hd
-  exportFn := exportFn_sound
+  exportFn := fun k f _ => exportFn_sound k f
   importRes := by
     intro k r d hd
     cases k with
@@ -843,19 +838,15 @@ theorem postReturnExport_eq (k : Key) (f : Fn) (h : f.sel = false) :
 
 theorem taskReturn_eq (k : Key) (f : Fn) : taskReturn k f = Spec.taskReturn k f := C.taskReturn_eq k f
 
-/-- side conditions under which C#'s function exports are right: async only for async-typed
-functions, and no post-return on an async export -/
-def okFn (k : Key) (f : Fn) : Prop :=
-  asyncOk k f ∧ (f.sel = true → needsPostReturn f.sig = false)
-
-theorem exportFn_sound (k : Key) (f : Fn) (hok : okFn k f) :
+theorem exportFn_sound (k : Key) (f : Fn) (hok : asyncOk k f) :
     ∀ x ∈ exportFn k f, x ∈ Spec.exportsOfFn k f := by
   intro x hx
   unfold exportFn at hx
   have hm := mainExport_eq k f
   cases hs : f.sel with
   | false =>
-    simp only [hs, Bool.false_eq_true, if_false, List.nil_append, List.mem_cons] at hx
+    simp only [hs, Bool.false_eq_true, if_false, List.nil_append, List.mem_cons, Bool.not_false,
+      Bool.true_and] at hx
     unfold Spec.abiOf at hm; simp only [hs, Bool.false_eq_true, if_false] at hm
     rcases hx with rfl | hx
     · exact mem_exportsOfFn_sync_normal hm
@@ -865,10 +856,9 @@ theorem exportFn_sound (k : Key) (f : Fn) (hok : okFn k f) :
         exact mem_exportsOfFn_sync_post (postReturnExport_eq k f hs)
       · simp at hx
   | true =>
-    have ha := hok.1 hs
-    have hp := hok.2 hs
-    simp only [hs, if_true, hp, Bool.false_eq_true, if_false, List.append_nil, List.mem_cons,
-      List.not_mem_nil, or_false] at hx
+    have ha := hok hs
+    simp only [hs, if_true, Bool.not_true, Bool.false_and, Bool.false_eq_true, if_false, List.append_nil,
+      List.mem_cons, List.not_mem_nil, or_false] at hx
     unfold Spec.abiOf at hm; simp only [hs, if_true] at hm
     rcases hx with rfl | rfl
     · exact mem_exportsOfFn_acb_normal ha hm
@@ -877,7 +867,7 @@ theorem exportFn_sound (k : Key) (f : Fn) (hok : okFn k f) :
 /-- side condition on the world: its own resource types are not given exported-resource glue -/
 def okWorld (w : World) : Prop := hasWorldExportFunc w = false ∨ worldResources w = []
 
-theorem sound : emit.SoundOn okFn (fun _ _ => True) okWorld where
+theorem sound : emit.SoundOn asyncOk (fun _ _ => True) okWorld where
   importFn := by
     intro k f hok d hd
     simp only [emit, importFn, List.mem_cons, List.not_mem_nil, or_false] at hd
@@ -886,7 +876,7 @@ theorem sound : emit.SoundOn okFn (fun _ _ => True) okWorld where
     unfold Spec.abiOf
     cases hs : f.sel with
     | false => simpa using mem_importsOfFn_sync
-    | true => simpa using mem_importsOfFn_async (hok.1 hs)
+    | true => simpa using mem_importsOfFn_async (hok hs)
   exportFnImports := by
     intro k f _ d hd
     simp only [emit, exportFnImports] at hd
